@@ -565,11 +565,10 @@ Walk(n, S) ==
                         IN IF ~ld[1] THEN ld[3]
                            ELSE LET F0 == FreshState([ld[3] EXCEPT !.fuel = @ - 1], ld[2], ctx)
                                     F1 == IF n.k = "embed"
-                                          THEN LET RECURSIVE Eb(_, _)
-                                                   Eb(i, t) == IF i > Len(n.blocks) THEN t
-                                                               ELSE Eb(i + 1, Bind(t, n.blocks[i].name,
-                                                                        [body |-> n.blocks[i].body, origin |-> S.name]))
-                                               IN [F0 EXCEPT !.blocks = <<Eb(1, EmptyScope)>> \o @]
+                                          (* the overrides are all blocks of the embed body, nested ones included *)
+                                          THEN LET ov == BlocksIn([i \in 1..Len(n.blocks) |->
+                                                                    [k |-> "block", name |-> n.blocks[i].name, body |-> n.blocks[i].body]], S.name)
+                                               IN [F0 EXCEPT !.blocks = <<ov>> \o @]
                                           ELSE F0
                                     F2 == WalkModule(ld[2], F1)
                                 IN Rejoin(ld[3], F2)
